@@ -51,7 +51,7 @@ func ModulesAttrs() (*ugo.ModuleMap, map[string]ugo.Object) {
 		"e":  make(ugo.Array, 0, 8),
 		"eb": make(ugo.Bytes, 0, 8),
 		"em": ugo.Map{},
-		"f":   &ugo.Function{Name: "f", Value: func(args ...ugo.Object) (ugo.Object, error) { return ugo.Int(len(args)), nil }},
+		"f":  &ugo.Function{Name: "f", Value: func(args ...ugo.Object) (ugo.Object, error) { return ugo.Int(len(args)), nil }},
 	}
 	mm.AddBuiltinModule("bm", attrs)
 	mm.AddBuiltinModule("strings", ugostrings.Module)
